@@ -9,6 +9,7 @@ package elastic
 // one request: bound to a context with the configured data timeout (cancel always released), GET of exactly the
 // given URL, body closed; success only if the body decoded to a JSON object (a nil map is refused)
 //@ func (*elasticClient).Get
+//@   sig c, ctx, url
 //@   props C10 C08 C01 C02 C14
 //@   observe context.WithTimeout, http.NewRequestWithContext, Do, Close, json.NewDecoder, Decode, cancel
 //@   entry row reqfail: [call context.WithTimeout(ctx, c.dataTimeout) as (c2, cf) ; call http.NewRequestWithContext(c2, "GET", url, _) as (rq, e) ; call cancel()]
@@ -27,10 +28,12 @@ package elastic
 
 // URLs: proto://host/ and proto://host/_aliases
 //@ func (*elasticClient).GetInfo
+//@   sig c, ctx, host
 //@   props C10 C08 C01 C02 C14
 //@   observe fmt.Sprintf, Get
 //@   entry row info: [call fmt.Sprintf("%s://%s/", bind_a) as (u) ; call Get(c, ctx, u) as (d, e)] when len(a) == 2 && astype(a[0], string) == c.proto && astype(a[1], string) == host && ret0 == d && ret1 == e -> exit
 //@ func (*elasticClient).GetIndexes
+//@   sig c, ctx, host
 //@   props C10 C08 C01 C02 C14
 //@   observe fmt.Sprintf, Get
 //@   entry row aliases: [call fmt.Sprintf("%s://%s/_aliases", bind_a) as (u) ; call Get(c, ctx, u) as (d, e)] when len(a) == 2 && astype(a[0], string) == c.proto && astype(a[1], string) == host && ret0 == d && ret1 == e -> exit
@@ -38,6 +41,7 @@ package elastic
 // the probe: a record iff the primary request succeeded; the index request is best effort and can neither
 // suppress nor falsify the record; host = target address:port; proto = the scanner's
 //@ func (*Scanner).Scan
+//@   sig s, ctx, r
 //@   props C10 C08 C01 C02 C14
 //@   observe String, fmt.Sprintf, GetInfo, GetIndexes
 //@   entry row noinfo: [call String(r.DstIP) as (ips) ; call fmt.Sprintf("%s:%d", bind_a) as (host) ; call GetInfo(s.elastic, ctx, host) as (info, e)]
@@ -51,31 +55,36 @@ package elastic
 // (so no connection ever goes to a host outside the target set), one connection per host, no keep-alives; the
 // per-request timeout is the configured data timeout (default first, then the options in order, nothing afterwards)
 //@ func WithDataTimeout$1
+//@   sig s
 //@   props C10 C08 C01 C02 C14
 //@   modifies s.elastic.dataTimeout
 //@   ensures s.elastic.dataTimeout == timeout
 //@ func NewScanner
+//@   sig proto, opts
 //@   props C02 C10 C08 C01 C14
-//@   observe o
+//@   observe ScannerOption
 //@   entry row init:  [] when s.proto == proto && s.elastic.proto == proto && s.elastic.client.Timeout == 0 && isptr(s.elastic.client.Transport, http.Transport) && fresh(asptr(s.elastic.client.Transport, http.Transport))
 //@                       && asptr(s.elastic.client.Transport, http.Transport).Proxy == nil && asptr(s.elastic.client.Transport, http.Transport).DialContext == nil
 //@                       && asptr(s.elastic.client.Transport, http.Transport).DisableKeepAlives -> loop 0
-//@   loop 0 row apply: [call o(s)] -> continue
+//@   loop 0 row apply: [call ScannerOption(s)] -> continue
 //@   loop 0 row done:  [] when ret == s -> exit
 
 // C14: the JSON form of a result is exactly what encoding/json produces for a copy of the record (all tagged fields,
 // library escaping), with no post-processing
 //@ func (*ScanResult).MarshalJSON
+//@   sig r
 //@   props C14
 //@   observe json.Marshal
 //@   entry row marshal: [call json.Marshal(bind_x) as (b, e)] when ret0 == b && ret1 == e -> exit
 
 // plain-text form of a record: printing never panics, whatever the scanned host put into the record (C10 C08)
 //@ func (*ScanResult).String
+//@   sig r
 //@   props C10 C08
 
 // option constructors: each returns its own option closure over exactly its argument (verified here, inlined at call sites)
 //@ func WithDataTimeout
+//@   sig timeout
 //@   inline
 //@   props C10 C08 C01 C02 C14
 //@   ensures closureof(ret, "WithDataTimeout$1") && capt(ret, "timeout") == timeout
